@@ -451,6 +451,13 @@ fn c11(r: &Run, rec: &StepRec) {
     if !matches!(rec.op, Op::PayFunding { .. }) || !rec.tx.ok {
         prove_d("C11/cumulative-fraction-moves-only-at-settlement", si(&rec.post.cum[r.vi]).eq(si(&rec.pre.cum[r.vi])), what.clone());
     }
+    // ... and only on the vAMM that was settled: every other vAMM's cumulative fraction and
+    // funding schedule are untouched by this transaction
+    for vj in 0..rec.pre.cum.len() {
+        if vj != r.vi {
+            prove_d("C11/other-vamms-funding-state-untouched", si(&rec.post.cum[vj]).eq(si(&rec.pre.cum[vj])).and(Cond::from_bool(rec.pre.vamm[vj].next_funding_time == rec.post.vamm[vj].next_funding_time)), format!("{} other-vamm={}", what, vj));
+        }
+    }
     if !rec.tx.ok {
         return;
     }
